@@ -1,4 +1,10 @@
+mod c24;
+mod c44;
+mod util;
+
 fn main() {
-    eprintln!("no sub-commands yet");
-    std::process::exit(2);
+    vf_kit::dispatch! {
+        "c24" => c24::C24,
+        "c44" => c44::C44,
+    }
 }
